@@ -2,12 +2,20 @@
 use crate::kit::{report::Report, Ctx};
 use serde_json::Value;
 
+pub mod c04;
+pub mod c05;
+pub mod c09;
+pub mod c10;
 pub mod c12;
 
 pub type ReplayResult = Result<(bool, String), String>;
 
 pub fn run(prop: &str, ctx: &Ctx) -> Option<Report> {
     match prop {
+        "C04" => Some(c04::run(ctx)),
+        "C05" => Some(c05::run(ctx)),
+        "C09" => Some(c09::run(ctx)),
+        "C10" => Some(c10::run(ctx)),
         "C12" => Some(c12::run(ctx)),
         _ => None,
     }
@@ -15,6 +23,10 @@ pub fn run(prop: &str, ctx: &Ctx) -> Option<Report> {
 
 pub fn replay(prop: &str, ctx: &Ctx, case: &Value) -> ReplayResult {
     match prop {
+        "C04" => c04::replay(ctx, case),
+        "C05" => c05::replay(ctx, case),
+        "C09" => c09::replay(ctx, case),
+        "C10" => c10::replay(ctx, case),
         "C12" => c12::replay(ctx, case),
         _ => Err(format!("no replay for property {}", prop)),
     }
